@@ -1012,7 +1012,10 @@ func (w *World) coqCval(n datamodel.Node) string {
 		l, _ := n.AsLink()
 		return fmt.Sprintf("(VLink %d)", w.lid(l))
 	case datamodel.Kind_Int:
-		i, _ := n.AsInt()
+		i, err := n.AsInt()
+		if err != nil {
+			return "VOtherKind" // a uint64 above int64: AsInt fails, no reader takes it for an integer (TokenView.view_cval)
+		}
 		return fmt.Sprintf("(VInt (%d)%%Z)", i)
 	case datamodel.Kind_String:
 		s, _ := n.AsString()
